@@ -88,3 +88,9 @@ Lemma demo_nontrivial :
   count_entries (fun e => match e with LEdge _ _ true _ _ _ => true | _ => false end) = 7%nat /\
   count_entries (fun e => match e with LFire _ _ _ => true | _ => false end) = 1%nat.
 Proof. vm_compute. repeat split; reflexivity. Qed.
+
+Lemma cross_clock_before_witness :
+  exists l1 e l2 e' l3 t ph mt i t' i',
+    res_log (simulate cfg_two_1hz procs_cross false 2 [] 2000) = l1 ++ e :: l2 ++ e' :: l3 /\
+    ev_wake e = Some (t, ph, mt, i) /\ ev_wake e' = Some (t', ph, mt, i') /\ (t == t')%Q /\ (i' < i)%N.
+Proof. exact (fifo_inverted_sound _ (proj1 cross_clock_before_inverted)). Qed.
